@@ -94,6 +94,10 @@ EXPLANATION += (
     ' Round 13: rounding quotients count whole windows only (R-TILE/whole-axis).'
 )
 
+EXPLANATION += (
+    ' Round 14: arrays cut by one window are never reordered separately (R-PERM/parallel-windows-in-step).'
+)
+
 RULE_TEXT = (
     "one obligation per dominance / typestate / provenance relation named "
     "above")
